@@ -830,6 +830,17 @@ func (bal *Balancer) balanceBlock(blkid arvados.SizedDigest, blk *BlockState) ba
 			changes = append(changes, fmt.Sprintf("%s:%d/%s=%s,%d", srv.ServiceHost, srv.ServicePort, slot.mnt.UUID, changeName[change], mtime))
 		}
 	}
+	if !lost && len(blk.Replicas) == 0 {
+		// No slot was wanted (e.g., no writable mount), but a
+		// referenced block without any replica is lost all
+		// the same.
+		for _, class := range bal.classes {
+			if blk.Desired[class] > 0 {
+				lost = true
+				break
+			}
+		}
+	}
 	if bal.Dumper != nil {
 		bal.Dumper.Printf("%s refs=%d needed=%d unneeded=%d pulling=%v %v %v", blkid, blk.RefCount, blockState.needed, blockState.unneeded, blockState.pulling, blk.Desired, changes)
 	}
